@@ -138,6 +138,13 @@ impl Report {
         *g.counters.entry("inconclusive_scenarios".into()).or_insert(0) += 1;
     }
     pub fn violation(&self, signature: &str, description: &str, witness: Value) {
+        // Sanitizer legs decide memory safety and data races only: the instrumented binary is 4-7x
+        // slower, which the behavioural oracles (timeouts, latencies, pool health) are not
+        // calibrated for; those are decided by the regular leg on the uninstrumented binary.
+        if std::env::var("PGV_SAN_LEG").is_ok() && !signature.contains("|sanitizer_report|") {
+            self.count("behavioural_alarms_under_sanitizer_not_judged", 1);
+            return;
+        }
         let mut g = self.inner.lock().unwrap();
         let n = g.seen_sigs.entry(signature.to_string()).or_insert(0);
         *n += 1;
@@ -162,6 +169,18 @@ impl Report {
             self.count(&format!("sanitizer_{}_instances_watched", leg), crate::pgcat::SAN_INSTANCES.load(std::sync::atomic::Ordering::SeqCst));
             self.count(&format!("sanitizer_{}_reports", leg), reports.len() as u64);
             for (kind, func, block) in reports {
+                if func.starts_with("reclaim-by-arc-swap:") {
+                    // ThreadSanitizer does not model the SeqCst fences arc-swap's debt protocol
+                    // relies on: the release of the previous value in ArcSwap::store is reported
+                    // against readers that held a Guard (DESIGN.md section 3)
+                    self.count("tsan_reports_on_arc_swap_reclamation_not_modelled_by_tsan", 1);
+                    self.set_add("tsan_arc_swap_reclamation_sites", &func);
+                    continue;
+                }
+                if func.starts_with("truncated:") {
+                    self.count("sanitizer_reports_cut_off_by_process_exit_not_classified", 1);
+                    continue;
+                }
                 self.violation(
                     &format!("{}|sanitizer_report|{}|at={}", self.prop, kind, func),
                     &format!("{} report from pgcat while running the {} workload: {}", kind, self.prop, block.first().cloned().unwrap_or_default()),
